@@ -87,6 +87,8 @@ def build(case):
         perm = np.arange(s) if numbering == "parent-first" else rng.permutation(s)
         res = top.add_residue("MOL", ch)
         for i in range(s):
+            if len(graphs) % 2 == 1 and s >= 2 and i == s // 2:
+                res = top.add_residue("MO2", ch)  # every second molecule spans TWO residues (bonded across the residue boundary)
             top.add_atom(f"C{i}", elem.carbon, res)
         graphs.append((g, perm))
         bonds_all += [(o + int(perm[a]), o + int(perm[b])) for a, b in g]
@@ -174,7 +176,14 @@ def eval_case(chks, case, records):
             methods.append(("image_molecules", dict(make_whole=mw, anchors=anchors)))
     for method, opts in methods:
         for inplace in (False, True):
-            t = md.Trajectory(t0.xyz.copy(), t0.topology, time=t0.time.copy(), unitcell_lengths=t0.unitcell_lengths.copy(), unitcell_angles=t0.unitcell_angles.copy())
+            if inplace:
+                xyz_in = t0.xyz.copy()
+            else:
+                # the coordinates are a VIEW into a larger array (as after loading several formats, or after slicing): inplace=False must still not touch them
+                big = np.zeros((F + 1, N, 3), dtype=np.float32)
+                big[1:] = t0.xyz
+                xyz_in = big[1:]
+            t = md.Trajectory(xyz_in, t0.topology, time=t0.time.copy(), unitcell_lengths=t0.unitcell_lengths.copy(), unitcell_angles=t0.unitcell_angles.copy())
             before = snapshot(t)
             old = t.xyz.astype(np.float64)
             obs_before = mic_observables(t, bonds_idx, mols, pairs)
@@ -277,7 +286,14 @@ def eval_case(chks, case, records):
     # ---- C03 cache clause
     for method, kw in (("make_molecules_whole", {}), ("image_molecules", {"make_whole": True}), ("image_molecules", {"make_whole": False})):
         for inplace in (True, False):
-            t = md.Trajectory(t0.xyz.copy(), t0.topology, time=t0.time.copy(), unitcell_lengths=t0.unitcell_lengths.copy(), unitcell_angles=t0.unitcell_angles.copy())
+            if inplace:
+                xyz_in = t0.xyz.copy()
+            else:
+                # the coordinates are a VIEW into a larger array (as after loading several formats, or after slicing): inplace=False must still not touch them
+                big = np.zeros((F + 1, N, 3), dtype=np.float32)
+                big[1:] = t0.xyz
+                xyz_in = big[1:]
+            t = md.Trajectory(xyz_in, t0.topology, time=t0.time.copy(), unitcell_lengths=t0.unitcell_lengths.copy(), unitcell_angles=t0.unitcell_angles.copy())
             t.center_coordinates()
             kw2 = dict(kw)
             if method == "image_molecules":
